@@ -1,5 +1,5 @@
 (* Props/C12.v -- property C12: every scalar value survives serialization and deserialization unchanged. *)
-From SS Require Import Model.SerScalar Proofs.SerScalar Proofs.SerScalarRead Model.BlockScalar Proofs.BlockScalar.
+From SS Require Import Model.SerScalar Proofs.SerScalar Proofs.SerScalarRead Model.BlockScalar Proofs.BlockScalar Model.FoldedPar Proofs.FoldedPar.
 Local Open Scope N_scope.
 
 (* Double-quoted style: for EVERY string (any scalar values, any length) the escaper's output, read
@@ -166,3 +166,15 @@ Check C12_literal_examples :
   emit_literal 4 [120; 10; 121]%N = mkBlock false Strip [[32; 32; 32; 32; 120]; [32; 32; 32; 32; 121]]%N /\
   read_literal None Keep [[32; 32; 32; 97]; [32; 32]; [32; 32; 32; 32; 98]; [32; 32]]%N = Some [97; 10; 10; 32; 98; 10; 10]%N.
 Print Assumptions C12_literal_examples.
+
+(* Folded block scalars, one paragraph: EVERY one-line string that starts with text (the only kind the serializer
+   folds automatically), wrapped at ANY column and written at ANY body indentation, reads back as itself: every
+   written line starts with text, so the reader folds each line break into the single space the wrap removed. *)
+Theorem C12_folded_single_line_roundtrip : forall ind w c r,
+  Layout.is_blank c = false ->
+  read_folded_paragraph None (emit_folded_line ind w (c :: r)) = Some (c :: r).
+Proof. exact folded_single_line_roundtrip. Qed.
+Check C12_folded_single_line_roundtrip : forall ind w c r,
+  Layout.is_blank c = false ->
+  read_folded_paragraph None (emit_folded_line ind w (c :: r)) = Some (c :: r).
+Print Assumptions C12_folded_single_line_roundtrip.
